@@ -13,6 +13,13 @@ class RelationshipBuilder(object):
         self.property = property_
         self.model = model
 
+    @property
+    def remote_operation_type(self):
+        return getattr(
+            self.remote_cls,
+            option(self.remote_cls, 'operation_type_column_name')
+        )
+
     def one_to_many_subquery(self, obj):
         tx_column = option(obj, 'transaction_column_name')
 
@@ -141,7 +148,7 @@ class RelationshipBuilder(object):
         return sa.and_(
             self.association_subquery(obj),
             self.one_to_many_subquery(obj),
-            self.remote_cls.operation_type != Operation.DELETE
+            self.remote_operation_type != Operation.DELETE
         )
 
     def many_to_one_criteria(self, obj):
@@ -173,7 +180,7 @@ class RelationshipBuilder(object):
         return sa.and_(
             reflector(self.property.primaryjoin),
             self.many_to_one_subquery(obj),
-            self.remote_cls.operation_type != Operation.DELETE
+            self.remote_operation_type != Operation.DELETE
         )
 
     def one_to_many_criteria(self, obj):
@@ -211,7 +218,7 @@ class RelationshipBuilder(object):
         return sa.and_(
             reflector(self.property.primaryjoin),
             self.one_to_many_subquery(obj),
-            self.remote_cls.operation_type != Operation.DELETE
+            self.remote_operation_type != Operation.DELETE
         )
 
     @property
@@ -293,7 +300,9 @@ class RelationshipBuilder(object):
                 sa.and_(
                     reflector(self.property.primaryjoin),
                     association_exists,
-                    self.association_version_table.c.operation_type !=
+                    self.association_version_table.c[
+                        self.manager.options['operation_type_column_name']
+                    ] !=
                     Operation.DELETE,
                     adapt_columns(self.property.secondaryjoin),
                 )
